@@ -67,6 +67,10 @@ class Spec:
         return (it["trace"], it["parent"], it["sampled"])
 
     def deliver(self, name, item, parent, props, events, kind, born=None, fin=None):
+        tr = self.traces.get(item["root"])
+        if tr is not None and tr["commit_pos"] is not None:
+            # finished after its trace's root: delivered (default configuration) but its attachments are not specified (C06)
+            self.unspecified.add(name)
         self.expected.append({"name": name, "trace": item["trace"], "parent": parent, "props": list(props),
                               "events": list(events), "root": item["root"], "fin": self.pos if fin is None else fin, "kind": kind, "born": born})
 
@@ -370,7 +374,7 @@ class Gen:
         self.mode = mode
         self.k = dict(threads=1 + rng.below(3), ops=10 + rng.below(60), cycle_density=rng.below(4), cancelable=rng.chance(1, 2),
                       unsampled=rng.chance(1, 4), multi=rng.chance(1, 3), same_trace_multi=False, exits=rng.chance(1, 3),
-                      late_reporter=rng.chance(1, 12), no_reporter=rng.chance(1, 25), adapters=False)
+                      late_reporter=rng.chance(1, 12), no_reporter=rng.chance(1, 25), adapters=False, late_children=rng.chance(1, 3))
         if knobs:
             self.k.update(knobs)
         self.s = Spec()
@@ -819,6 +823,8 @@ class Gen:
         sp = s.spans[v]
         if sp is not None and sp["root_key"] and sp["root_key"] != "U":
             key = sp["root_key"]
+            if self.k.get("late_children") and self.r.chance(1, 3):
+                return True      # the root finishes before other spans of its trace (C01: still delivered; C03: discarded)
             for w, o in s.spans.items():
                 if w != v and o is not None and any(it["root"] == key for it in o["items"]):
                     return False
